@@ -120,7 +120,8 @@ func getMessage(typ byte) Message {
 	case messageTypeDeleteAvailableShard:
 		return &DeleteAvailableShardMessage{}
 	default:
-		panic(fmt.Sprintf("unknown message type %d", typ))
+		// unknown type byte: the caller reports it (messages come off the wire)
+		return nil
 	}
 }
 
